@@ -147,9 +147,13 @@ def gen_sampler_spec(rng: random.Random, kind: str, bs: int, cheap=True):
             o["max_deduplication_passes"] = rng.randint(0, 6)
     elif kind == "bestbatch":
         o = {"a": rng.choice([3.0, 1.0, 0.5]), "b": rng.choice([1.0, 2.0]), "perturbation_range": rng.randint(2, 6)}
+        if rng.random() < 0.3:
+            o = {}
     elif kind == "gp":
         o = {"candidate_pool_size": rng.randint(8, 30), "optimize_restarts": rng.randint(0, 1),
              "acquisition": rng.choice(["mean", "expected_improvement"]), "jitter": rng.choice([0.1, 0.01])}
+        if rng.random() < 0.4:
+            del o["acquisition"], o["jitter"]          # constructor defaults are exercised too
     elif kind == "rf":
         o = {"candidate_pool_size": rng.randint(8, 40), "n_estimators": rng.randint(2, 6),
              "criterion": rng.choice(["gini", "entropy"]), "n_classes": rng.randint(3, 6)}
@@ -160,16 +164,25 @@ def gen_sampler_spec(rng: random.Random, kind: str, bs: int, cheap=True):
     elif kind == "pso":
         o = {"inertia": rng.choice([0.9, 0.5]), "c1": rng.choice([0.1, 0.5]), "c2": rng.choice([0.1, 0.7]),
              "global_minimum_across_samplers": rng.random() < 0.5}
+        if rng.random() < 0.3:
+            o = {"global_minimum_across_samplers": o["global_minimum_across_samplers"]}
     elif kind == "cors":
         o = {"max_samples": rng.choice([200, 1000]), "rho0": rng.choice([0.5, 0.2]), "p": rng.choice([1.0, 2.0])}
     return {"cls": kind, "batch_size": bs, "opts": o}
 
 
-def gen_lineup(rng: random.Random, n=None, kinds=None, max_bs=4, rl=False):
+def gen_lineup(rng: random.Random, n=None, kinds=None, max_bs=4, rl=False, feature=None):
     kinds = list(kinds or SAMPLER_KINDS)
     n = n or rng.randint(1, 6)
+    if feature is not None and feature in kinds:
+        # coverage: every sampler class is guaranteed to take part in one scenario out of len(kinds)
+        n = max(n, 2)
     lineup = []
+    slot = rng.randrange(1, n) if (feature is not None and n > 1) else None
     for i in range(n):
+        if i == slot and feature in kinds:
+            lineup.append(gen_sampler_spec(rng, feature, rng.randint(1, max_bs)))
+            continue
         if i == 0 and not rl:
             k = rng.choice([x for x in HISTORY_FREE if x in kinds] or ["halton"])
         else:
@@ -211,14 +224,14 @@ def gen_loss(rng: random.Random, D, kinds=None):  # noqa: N803
 
 
 def gen_config(rng: random.Random, *, rl_prob=0.25, kinds=None, loss_kinds=None, max_dims=4, max_bs=4,
-               extreme_prob=0.0, model_kinds=("gauss", "ar1", "mix")):
+               extreme_prob=0.0, model_kinds=("gauss", "ar1", "mix"), feature=None):
     dims = rng.randint(1, max_dims)
     rl = rng.random() < rl_prob
     D = rng.randint(1, 3)  # noqa: N806
     N = rng.choice([12, 20, 30])  # noqa: N806
     cfg = {
         "space": gen_space(rng, dims),
-        "lineup": gen_lineup(rng, kinds=kinds, max_bs=max_bs, rl=rl),
+        "lineup": gen_lineup(rng, kinds=kinds, max_bs=max_bs, rl=rl, feature=feature),
         "scheduler": {"kind": "rl", "agent": {"kind": "eps", "eps": rng.choice([0.0, 0.1, 0.5, 1.0]),
                                                "alpha": rng.choice([-1, 0.1, 0.5]), "init": rng.choice([0.0, 1.0])}}
         if rl else {"kind": "rr"},
@@ -331,7 +344,7 @@ class CalSim:
         theta = np.array(args[0], copy=True) if args else None
         if self.cur is not None:
             self.cur.calls.append([idx, theta, args[1] if len(args) > 1 else None, args[2] if len(args) > 2 else None, None])
-        self.log.add("model-dispatch", idx, arr_digest(theta), int(args[1]), int(args[2]))
+        self.log.add("model-dispatch", idx, arr_digest(theta), *[int(a) if isinstance(a, (int, np.integer)) else repr(a) for a in args[1:3]])
         self._check_prefix("model-dispatch")
         grid = self.cal.param_grid.param_grid if self.cal is not None else None
         if grid is not None and theta is not None:
@@ -567,7 +580,7 @@ class CalSim:
             return None if cs is None else seeds.randrange(2 ** 31)
         samplers = [make_sampler(s, cseed()) for s in cfg["lineup"]]
         m = cfg["model"]
-        self.model = models.HarnessModel(m["kind"], m["D"], m.get("extreme", 0.0))
+        self.model = models.HarnessModel(m["kind"], m["D"], m.get("extreme", 0.0), m.get("mutates", False))
         real = models.real_data_for(m["kind"], m["D"], cfg["N"], cfg["real_seed"])
         kw = {}
         if cfg["scheduler"]["kind"] == "rl":
@@ -614,7 +627,8 @@ class CalSim:
         except Exception as e:  # noqa: BLE001
             res["exc"] = (type(e).__name__, str(e)[:300])
         res["snap"] = self.snapshot()
-        self.log.add("calibrate-end", n, res["exc"], arr_digest(cal.params_samp), arr_digest(cal.losses_samp),
+        # only the exception type goes into the event log: messages may carry timestamps or addresses (XGBoost does)
+        self.log.add("calibrate-end", n, res["exc"][0] if res["exc"] else None, arr_digest(cal.params_samp), arr_digest(cal.losses_samp),
                      arr_digest(cal.series_samp), arr_digest(cal.batch_num_samp), arr_digest(cal.method_samp))
         self._check_prefix("calibrate-end")
         return res
@@ -677,6 +691,14 @@ class CalSim:
                 self.abandon()
             self.fault_idx.pop(key, None)
             return r
+        if kind == "calibrate_fault":
+            # the k-th model call from now on raises; the live object survives and is used again
+            _, n, k = op
+            key = ("model", self.n_model + k)
+            self.fault_idx[key] = {"kind": "raise", "seam": "model", "at": self.n_model + k}
+            r = self.do_calibrate(n)
+            self.fault_idx.pop(key, None)
+            return r
         if kind == "crash":
             self.stats["crash@between-batches"] += 1
             self.abandon()
@@ -691,7 +713,7 @@ class CalSim:
             except Exception as e:  # noqa: BLE001
                 r["exc"] = (type(e).__name__, str(e)[:300])
                 r["fatal"] = True
-            self.log.add("restore", r["exc"])
+            self.log.add("restore", r["exc"][0] if r["exc"] else None)
             return r
         if kind == "fresh_continue":
             # the process dies; a brand-new interpreter restores from the folder, runs n batches and exits;
